@@ -1,8 +1,10 @@
 package main
 
 import (
+	"fmt"
 	"go/token"
 	"go/types"
+	"sort"
 	"strings"
 
 	"golang.org/x/tools/go/ssa"
@@ -241,7 +243,12 @@ func checkWaitAndShutdown(c *Ctx, p *Prog, R *BusRoles) {
 	// (a) the completion channel is closed / sent on only after Wait() returned, in the waiter goroutine
 	okSignal := false
 	var waiter *ssa.Function
-	for _, a := range sd.AnonFuncs {
+	// the waiter goroutine is a closure of Shutdown or of a helper it calls
+	var closures []*ssa.Function
+	for _, g := range reachFuncs(p, sd, PkgBus) {
+		closures = append(closures, g.AnonFuncs...)
+	}
+	for _, a := range closures {
 		var waitIn, sigIn ssa.Instruction
 		for _, b := range a.Blocks {
 			for _, in := range b.Instrs {
@@ -272,6 +279,7 @@ func checkWaitAndShutdown(c *Ctx, p *Prog, R *BusRoles) {
 	_ = doneChan
 	// (b) Close() of the store only on the completion arm of Shutdown's own select
 	n := 0
+	ix := newIPIndex(p)
 	var scan func(g *ssa.Function, inWaiter bool)
 	scan = func(g *ssa.Function, inWaiter bool) {
 		for _, b := range g.Blocks {
@@ -281,7 +289,32 @@ func checkWaitAndShutdown(c *Ctx, p *Prog, R *BusRoles) {
 					continue
 				}
 				n++
+				// a helper that closes the store is fine when Shutdown calls it only on the
+				// completion arm of its select
+				onlyFromDoneArm := false
+				if g != sd && g.Parent() == nil {
+					sites := ix.callers[g]
+					onlyFromDoneArm = len(sites) > 0
+					for _, cs := range sites {
+						if cs.Parent() != sd || !(doneBlk == cs.Block() || doneBlk.Dominates(cs.Block())) {
+							onlyFromDoneArm = false
+						}
+					}
+				}
 				switch {
+				case onlyFromDoneArm:
+					c.Discharge("C06.R4", "Shutdown/close-only-on-done-arm", p.Pos(in.Pos()), "Close sits in "+FuncDisplay(g)+", which Shutdown calls only on the completion arm")
+					retd := false
+					if call, ok := in.(*ssa.Call); ok {
+						for _, ref := range *call.Referrers() {
+							if bo, ok := ref.(*ssa.BinOp); ok {
+								if _, _, ok := nilTest(bo); ok {
+									retd = true
+								}
+							}
+						}
+					}
+					c.Check(retd, "C06.R4", "Shutdown/close-error-returned", p.Pos(in.Pos()), "a Close error is tested and returned", "the error returned by the store's Close is dropped")
 				case g != sd:
 					c.Violate("C06.R4", "Shutdown/close-only-on-done-arm", p.Pos(in.Pos()), "the store is closed in "+FuncDisplay(g)+", outside Shutdown's select: when the context expires first Shutdown returns the context's error and the store is closed afterwards anyway (or twice on a retry)", nil)
 				case !(doneBlk == in.Block() || doneBlk.Dominates(in.Block())):
@@ -308,6 +341,11 @@ func checkWaitAndShutdown(c *Ctx, p *Prog, R *BusRoles) {
 		}
 	}
 	scan(sd, false)
+	for _, g := range reachFuncs(p, sd, PkgBus) {
+		if g != sd && g.Parent() == nil && g.Name() != "Wait" {
+			scan(g, false)
+		}
+	}
 	c.Floor("C06.R4", "store Close call sites", n, 1)
 	// (c) return nil only on the completion arm; the ctx arm returns ctx.Err()
 	okRets := true
@@ -386,6 +424,8 @@ func checkHookSlotWriters(c *Ctx, p *Prog, R *BusRoles, rule string) {
 	}
 	slots := map[string]bool{R.BusBefore: true, R.BusAfter: true, R.BusBeforeCtx: true, R.BusAfterCtx: true}
 	n := 0
+	ix := newIPIndex(p)
+	direct := map[*ssa.Function]map[string]token.Pos{} // top-level function -> slots it stores (incl. its closures)
 	for _, f := range p.FuncsIn(PkgBus) {
 		for _, b := range f.Blocks {
 			for _, in := range b.Instrs {
@@ -397,19 +437,70 @@ func checkHookSlotWriters(c *Ctx, p *Prog, R *BusRoles, rule string) {
 				if !ok || tn != "EventBus" || !slots[fld] {
 					continue
 				}
-				n++
-				root := outermost(f).Name()
-				want, known := owner[root]
-				construct := "hook-slot-writer/" + root + "/" + fld
-				switch {
-				case !known:
-					c.Violate(rule, construct, p.Pos(in.Pos()), root+" writes the "+fld+" hook slot: a hook installed by the user can be displaced", nil)
-				case want != fld:
-					c.Violate(rule, construct, p.Pos(in.Pos()), root+" writes the "+fld+" slot instead of its own ("+want+"): the hook the user installed there through its own option is silently replaced and never runs", nil)
-				default:
-					c.Discharge(rule, construct, p.Pos(in.Pos()), "writes its own slot")
+				o := outermost(f)
+				if direct[o] == nil {
+					direct[o] = map[string]token.Pos{}
+				}
+				direct[o][fld] = in.Pos()
+			}
+		}
+	}
+	// slots a function writes itself or through the functions it calls
+	var written func(f *ssa.Function, seen map[*ssa.Function]bool) map[string]bool
+	written = func(f *ssa.Function, seen map[*ssa.Function]bool) map[string]bool {
+		out := map[string]bool{}
+		if seen[f] {
+			return out
+		}
+		seen[f] = true
+		for fld := range direct[f] {
+			out[fld] = true
+		}
+		for _, g := range reachFuncs(p, f, PkgBus) {
+			if o := outermost(g); o != f {
+				for fld := range written(o, seen) {
+					out[fld] = true
 				}
 			}
+		}
+		return out
+	}
+	for name, want := range owner {
+		f := p.Func(PkgBus, name)
+		if f == nil {
+			f = p.Method(PkgBus, "EventBus", name)
+		}
+		if f == nil {
+			c.Unresolved(rule, "UNRESOLVED-ANCHOR/"+name, "hook option / setter not found")
+			continue
+		}
+		n++
+		w := written(f, map[*ssa.Function]bool{})
+		var got []string
+		for fld := range w {
+			got = append(got, fld)
+		}
+		sort.Strings(got)
+		construct := "hook-slot-writer/" + name + "/" + want
+		if len(got) == 1 && got[0] == want {
+			c.Discharge(rule, construct, p.Pos(f.Pos()), "writes its own slot (directly or through its setter) and no other")
+		} else {
+			c.Violate(rule, construct, p.Pos(f.Pos()), fmt.Sprintf("%s writes the hook slot(s) %v instead of exactly its own (%s): the hook the user installed through another option is silently replaced, or this one is never installed", name, got, want), nil)
+		}
+	}
+	// nobody else stores into a slot: a direct writer is an owner or is only called by owners of that slot
+	for f, flds := range direct {
+		if _, isOwner := owner[f.Name()]; isOwner {
+			continue
+		}
+		for fld, pos := range flds {
+			ok := len(ix.callers[f]) > 0
+			for _, cs := range ix.callers[f] {
+				if want, isOwner := owner[outermost(cs.Parent()).Name()]; !isOwner || want != fld {
+					ok = false
+				}
+			}
+			c.Check(ok, rule, "hook-slot-writer/"+f.Name()+"/"+fld, p.Pos(pos), "helper called only by the owner(s) of this slot", f.Name()+" writes the "+fld+" hook slot: a hook installed by the user can be displaced")
 		}
 	}
 	c.Floor(rule, "hook slot writers", n, 6)
